@@ -10,8 +10,11 @@ LEVEL_TEXT = ("Theorems in Coq, for every event sequence / configuration / execu
               "call, nothing panics, submitted calls = completed calls + calls in the open batch as multisets (nobody lost, "
               "nobody called twice), every callback gets ErrShuttingDown, the error of the request its call travelled in, or "
               "the executor's answer at its call's own position in that request; nothing is left waiting after Close or with "
-              "linger 0. (2) write stream: the i-th successful completion pairs the i-th successfully sent request with the "
-              "i-th response; every Send returns exactly once; no panic (after the fix; refuted for the code as found). "
+              "linger 0. (2) write stream: every successful completion pairs the "
+              "i-th successfully sent request with the i-th response received, for one i -- also when callers abandon "
+              "requests that are on the wire (per-request timeout or cancellation: the future keeps its place in the FIFO "
+              "and swallows its own late response); every Send returns exactly once; no panic (after the fix; refuted for "
+              "the code as found). "
               "(3) k-way merge: output + unread rest is a permutation of the per-shard streams for any comparison, cut after "
               "the first error; sorted by CompareWithSlash when every per-shard stream is (uses C11's total-order theorems); "
               "List is the plain union for every schedule, and with the caller's context (after the fix; refuted for the code "
@@ -41,7 +44,7 @@ ASSUMES = ["executor answers: an error or a response with at least one entry per
            "comparison get: all per-shard answers of one query carry a secondary key or none does"]
 RULE = ("batch: event lists (Call/Tick/Close) x configurations (write/read, linger 0|>0, count limit incl. 0/-1, byte limit with "
         "exact fits) x executor scripts (ok, error, short, long, retriable), distinct by content; stream: interleavings of "
-        "sends (ok/failed), responses, receive errors, closure; merge: 0..8 per-shard streams over a '/'-rich key alphabet, "
+        "sends (ok/failed), responses, receive errors, per-request context cancellations, closure; merge: 0..8 per-shard streams over a '/'-rich key alphabet, "
         "errors anywhere, duplicates, unsorted streams, non-trivial = 2+ streams; mget: 1..6 shards, all comparison types, "
         "errors/not-found/OK mixes, secondary keys, partial arrivals, random callback order, non-trivial = 2+ shards; "
         "list: 1..5 shards with errors; listc (child process each): 1..4 gated shard streams, forwards, cancellation, "
